@@ -46,6 +46,13 @@ def _find(e, op, acc=None, seen=None):
     return acc
 
 
+def _radicand(ph):
+    r = _find(ph, 'sqrt')
+    if len(r) != 1:
+        raise shim.TraceError('angular-spectrum phase with %d square roots' % len(r))
+    return r[0]
+
+
 def _phase_of_pixel(px):
     """the real phase of a kernel sample, read from the sample itself: re contains cos(phi), im contains sin(phi) for one phi
     (independent of whether the code wrote exp(1j*phi), cos + 1j sin, or called generate_complex_field)"""
@@ -94,7 +101,9 @@ def kernels():
         if H.shape != (NU, NV): raise shim.TraceError('%s: kernel shape %s' % (fname, H.shape))
         for i in range(NU):
             for j in range(NV):
-                g.add('%s_ph_%d_%d' % (tag, i, j), KARGS, _phase_of_pixel(H[i, j]))
+                ph_ = _phase_of_pixel(H[i, j])
+                g.add('%s_ph_%d_%d' % (tag, i, j), KARGS, ph_)
+                if tag == 'as': g.add('as_rad_%d_%d' % (i, j), KARGS, _radicand(ph_))
                 g.add('%s_re_%d_%d' % (tag, i, j), KARGS, H[i, j].re)
                 g.add('%s_im_%d_%d' % (tag, i, j), KARGS, H[i, j].im)
     # band-limited: sample = mask01 x exp(i phase); mask and phase are read from the sample itself
@@ -109,6 +118,7 @@ def kernels():
             px = shim.CE.lift(H[i, j])
             g.add('bl_mask_%d_%d' % (i, j), KARGS, _mask_of_pixel(px))
             g.add('bl_ph_%d_%d' % (i, j), KARGS, _phase_of_pixel(px))
+            g.add('bl_rad_%d_%d' % (i, j), KARGS, _radicand(_phase_of_pixel(px)))
             g.add('bl_re_%d_%d' % (i, j), KARGS, px.re)
             g.add('bl_im_%d_%d' % (i, j), KARGS, px.im)
     # ------------------------------------------------------------ NumPy propagators: kernel literals
@@ -129,6 +139,7 @@ def kernels():
             for j in range(NV):
                 e = shim.CE.lift(H[i, j])
                 g.add('%s_ph_%d_%d' % (tag, i, j), ['k'] + KARGS, _phase_of_pixel(e))
+                if tag in ('nas', 'nbl'): g.add('%s_rad_%d_%d' % (tag, i, j), ['k'] + KARGS, _radicand(_phase_of_pixel(e)))
                 g.add('%s_re_%d_%d' % (tag, i, j), ['k'] + KARGS, e.re)
                 g.add('%s_im_%d_%d' % (tag, i, j), ['k'] + KARGS, e.im)
         info[fname] = opshim.coq(term)
@@ -154,6 +165,9 @@ TYPE_OF = {'angular_spectrum': 'Angular Spectrum', 'band_limited_angular_spectru
            'incoherent_angular_spectrum': 'Incoherent Angular Spectrum'}
 
 
+TERMS = {}
+
+
 def pipelines():
     """returns list of (name, args, coq_term) for the operator-level definitions, and the dispatch record"""
     out = []
@@ -162,7 +176,9 @@ def pipelines():
     ns = opshim.namespace()
     shim.load('odak/learn/wave/classical.py', ['custom'], ns)
     custom = ns['custom']
-    out.append(('t_custom', 'u K A', opshim.coq(custom(u, K, zero_padding=False, aperture=A))))
+    TERMS.clear()
+    TERMS['t_custom'] = custom(u, K, zero_padding=False, aperture=A)
+    out.append(('t_custom', 'u K A', opshim.coq(TERMS['t_custom'])))
     out.append(('t_custom_noap', 'u K', opshim.coq(custom(u, K, zero_padding=False, aperture=1.))))
     out.append(('t_custom_nokernel', 'u A', opshim.coq(custom(u, None, zero_padding=False, aperture=A))))
     out.append(('t_custom_fpad', 'u K A', opshim.coq(custom(u, K, zero_padding=True, aperture=A))))
@@ -189,6 +205,7 @@ def pipelines():
             term = ns['propagate_beam'](u, k, z, dx, lam, propagation_type=TYPE_OF[f], zero_padding=zp, aperture=A)
             if calls[0].get('propagation_type') != TYPE_OF[f]:
                 raise shim.TraceError('propagate_beam(%s) requested a %s kernel' % (TYPE_OF[f], calls[0].get('propagation_type')))
+            TERMS['%s_%s' % (name, f)] = term
             out.append(('%s_%s' % (name, f), 'u K A', opshim.coq(term)))
     out.append(('t_beam_custom', 'u K A', opshim.coq(ns['propagate_beam'](u, k, z, dx, lam, propagation_type='custom', kernel=K, zero_padding=[False, False, False], aperture=A))))
     # NumPy pipelines (kernel literal shown as H)
@@ -199,15 +216,18 @@ def pipelines():
         shim.load('odak/wave/classical.py', [f], nsn)
         un = opshim.fvar('u', shape=(NU, NV))
         term = nsn[f](un, k, z, dx, lam)
+        TERMS['n_' + f] = term
         out.append(('n_' + f, 'u H' + (' (dx : R)' if f in ('transfer_function_fresnel', 'impulse_response_fresnel') else ''), opshim.coq(_name_lits(term))))
     # Fraunhofer (both APIs): pointwise factor x centred transform x dx^2
     nst = opshim.namespace()
     shim.load('odak/learn/wave/classical.py', ['fraunhofer'], nst)
     term = nst['fraunhofer'](opshim.fvar('u', shape=(NU, NV)), k, z, dx, lam)
+    TERMS['t_fraunhofer'] = term
     out.append(('t_fraunhofer', 'u H (dx : R)', opshim.coq(_name_lits(term))))
     nsn = opshim.namespace()
     shim.load('odak/wave/classical.py', ['fraunhofer'], nsn)
     term = nsn['fraunhofer'](opshim.fvar('u', shape=(NU, NV)), k, z, dx, lam)
+    TERMS['n_fraunhofer'] = term
     out.append(('n_fraunhofer', 'u H (dx : R)', opshim.coq(_name_lits(term))))
     return out, disp
 
